@@ -103,6 +103,36 @@ def templates(tier):
                 if e["dom"]: dom["x%d" % n] = e["dom"]
                 text = step + "start :: fn do\n    s := set.from_list([%s, %s])\n%s\n    print(s -> set.len())\n    print(s -> set.contains(%s))\n    print(s -> set.contains(%s))\nend\n" % (e["lits"][0], e["lits"][0], "\n".join(calls), e["lits"][0], e["lits"][1])
                 out.append({"name": "set_%s_%s" % (en, "".join(map(str, prefix)) or "_"), "role": "set-operation-sequences(%s)" % en, "text": text, "dom": dom})
+    # ---- independence: containers built from one source value (or from each other) share no state - operations on one are
+    # never seen through another or through the source list
+    for en, e in ELEM.items():
+        ty = e["ty"]; k1, k2 = e["lits"]
+        nops = 1 if tier == "quick" else 2
+        dstep = DICT_STEP.replace("Dict(T,", "Dict(%s," % ty).replace("k: T", "k: " + ty)
+        calls = []; dom = {}
+        for j in range(1, nops + 1):
+            calls.append("    step(a, ?op%d, %s, ?v%d)" % (j, e["v"](j), j)); dom["op%d" % j] = (0, 6); dom["v%d" % j] = (0, 2)
+            if e["dom"]: dom["x%d" % j] = e["dom"]
+        obs = "\n".join("    print(%s -> dict.get(%s))" % (d, k) for d in "ab" for k in (k1, k2)) + "\n    print(a -> dict.len())\n    print(b -> dict.len())\n    print(src)\n    print(src -> list.len())\n    print(src -> list.get(0))\n"
+        out.append({"name": "independent_dicts_from_one_list_" + en, "role": "containers-built-from-one-source-are-independent(dict,%s)" % en, "dom": dom,
+                    "text": dstep + "start :: fn do\n    src := [(%s, 7), (%s, 8)]\n    a := dict.from_list(src)\n    b := dict.from_list(src)\n%s\n%s    src -> list.push((%s, 9))\n    src -> list.set(0, (%s, 5))\n    print(a -> dict.get(%s))\n    print(b -> dict.len())\nend\n"
+                            % (k1, k2, "\n".join(calls), obs, k2, k2, k1)})
+        sstep = SET_STEP.replace("Set(T)", "Set(%s)" % ty).replace("k: T", "k: " + ty)
+        calls = []; dom = {}
+        for j in range(1, nops + 1):
+            calls.append("    step(a, ?op%d, %s)" % (j, e["v"](j))); dom["op%d" % j] = (0, 3)
+            if e["dom"]: dom["x%d" % j] = e["dom"]
+        out.append({"name": "independent_sets_from_one_list_" + en, "role": "containers-built-from-one-source-are-independent(set,%s)" % en, "dom": dom,
+                    "text": sstep + "start :: fn do\n    src := [%s, %s]\n    a := set.from_list(src)\n    b := set.from_list(src)\n%s\n    print(a -> set.len())\n    print(b -> set.len())\n    print(b -> set.contains(%s))\n    print(b -> set.contains(%s))\n    print(src)\n    src -> list.pop()\n    print(b -> set.len())\n    print(a -> set.contains(%s))\n    c := a -> set.map(pu v: %s -> %s do v end)\n    c -> set.add(%s)\n    c -> set.remove(%s)\n    print(a -> set.contains(%s))\n    print(a -> set.contains(%s))\n    print(a -> set.len())\nend\n"
+                            % (k1, k2, "\n".join(calls), k1, k2, k2, ty, ty, k1, k2, k1, k2)})
+        lstep = LIST_STEP.replace("PRED", e["pred"]).replace("MAPF", e["mapf"]).replace("FOLDF", e["foldf"]).replace("INIT", e["init"]).replace(": T", ": " + ty).replace("[T]", "[%s]" % ty)
+        calls = []; dom = {}
+        for j in range(1, nops + 1):
+            calls.append("    step(m, ?op%d, %s, ?i%d - 1)" % (j, e["v"](j), j)); dom["op%d" % j] = (0, 14); dom["i%d" % j] = (0, 3)
+            if e["dom"]: dom["x%d" % j] = e["dom"]
+        out.append({"name": "independent_lists_from_one_list_" + en, "role": "containers-built-from-one-source-are-independent(list,%s)" % en, "dom": dom,
+                    "text": lstep + "start :: fn do\n    l: [%s] = [%s, %s]\n    m := l -> map(pu v: %s -> %s do v end)\n    f := l -> filter(pu v: %s -> bool do true end)\n%s\n    print(l)\n    print(f)\n    print(m)\n    l -> list.push(%s)\n    f -> list.pop()\n    print(l)\n    print(f)\n    print(m)\nend\n"
+                            % (ty, k1, k2, ty, ty, ty, "\n".join(calls), k1)})
     out.append({"name": "maybe_helpers", "role": "maybe-helpers", "dom": {"a": (0, 3), "k": (0, 1)}, "text": '''
 start :: fn do
     m := if ?k > 0 do Maybe.Just ?a else Maybe.None end
